@@ -57,6 +57,7 @@ type W struct {
 	curF     *os.File
 	sampleN  map[string]int
 	curMon   string
+	curLen   int64
 }
 
 const maxDistinctPerShard = 6_000_000
@@ -108,6 +109,12 @@ func (w *W) Max(key string, v float64) {
 	}
 }
 
+// HashStr gives a short stable hash of any JSON-serialisable value.
+func HashStr(v interface{}) string {
+	b, _ := json.Marshal(v)
+	return fmt.Sprintf("%016x", Hash64(string(b)))
+}
+
 func Hash64(s string) uint64 {
 	h := fnv.New64a()
 	h.Write([]byte(s))
@@ -142,7 +149,30 @@ func (w *W) Cur(monitor string, c interface{}) {
 		w.curF = f
 	}
 	b, _ := json.Marshal(map[string]interface{}{"monitor": monitor, "case": c})
-	w.curF.Truncate(0)
+	w.curF.Truncate(int64(len(b)))
+	w.curLen = int64(len(b))
+	w.curF.WriteAt(b, 0)
+}
+
+// CurRaw is Cur for a pre-rendered case (JSON), for hot loops.
+func (w *W) CurRaw(monitor string, rawCase []byte) {
+	if w.curF == nil {
+		f, err := os.OpenFile(filepath.Join(w.Dir, fmt.Sprintf("shard-%d.cur", w.Shard)), os.O_CREATE|os.O_RDWR|os.O_TRUNC, 0o644)
+		if err != nil {
+			return
+		}
+		w.curF = f
+	}
+	b := make([]byte, 0, len(rawCase)+64)
+	b = append(b, `{"monitor":"`...)
+	b = append(b, monitor...)
+	b = append(b, `","case":`...)
+	b = append(b, rawCase...)
+	b = append(b, '}')
+	if int64(len(b)) < w.curLen {
+		w.curF.Truncate(int64(len(b)))
+	}
+	w.curLen = int64(len(b))
 	w.curF.WriteAt(b, 0)
 }
 
@@ -234,6 +264,11 @@ type Prop struct {
 	WatchdogSec func(tier string) int
 	// CrashIsViolation: a child killed by a Go fatal error refutes the property.
 	CrashIsViolation bool
+	// MemLimitMB: address-space limit of each child (0 = none).
+	MemLimitMB int
+	// Probes: extra children (shard numbers Shards..Shards+Probes-1) that each run one
+	// input expected to be fatal to the process (known findings are re-observed this way).
+	Probes func(tier string) int
 
 	monitors map[string]func(w *W, raw json.RawMessage) error
 }
